@@ -305,6 +305,8 @@ class AlignmentAffine(HomogFamilyAlignment, Affine):
         # now, the Affine
         optimal_h = self._build_alignment_h_matrix(source, target)
         Affine.__init__(self, optimal_h, copy=False, skip_checks=True)
+        # Affine.__init__ goes through our syncing setter - restore the target
+        self._target = target
 
     @staticmethod
     def _build_alignment_h_matrix(source, target):
